@@ -132,9 +132,8 @@ Lemma timeslice_floor e span name r r' ns :
              0 < span /\ (span | t') /\ t' <= ns < t' + span.
 Proof.
   intros He. unfold timeslice_op. rewrite He. cbn [bind].
-  destruct (negb (in_i64 span)) eqn:H1; cbn [orb]; [discriminate|].
-  destruct (span <=? 0) eqn:H2; cbn [orb]; [discriminate|].
-  destruct (negb (in_i64 ns)) eqn:H3; [discriminate|].
+  destruct (span <=? 0) eqn:H2; [discriminate|].
+  unfold mk_date. destruct (date_ok (ns - ns mod span)); cbn [bind]; [|discriminate].
   intros H; injection H as <-.
   apply Z.leb_gt in H2.
   exists (ns - ns mod span). split; [|split; [lia|split]].
